@@ -157,6 +157,8 @@ let handle (i : string list) (o : string list) =
     let add_call key c = Hashtbl.replace impl_calls key (c :: (try Hashtbl.find impl_calls key with Not_found -> [])) in
     let dropped = ref false in
     let impl_panic = ref false in
+    let c17_fail = ref None in
+    let max_ledger = ref 0 in
     let nev = ref 0 in
     let last_model_q = ref (0, 0) in
     List.iter (fun tok ->
@@ -168,6 +170,25 @@ let handle (i : string list) (o : string list) =
       | ["c"; "C"; toi; n] -> add_call (toi, n) CallComplete
       | ["c"; "E"; toi; n] -> add_call (toi, n) CallError
       | ["c"; "I"; toi; n] -> add_call (toi, n) CallInterrupted
+      | ["H"; bytes] ->
+        if prop = "c17" && !c17_fail = None then begin
+          let e_i = int_of_string (get "e" "16") and b_i = int_of_string (get "b" "4") in
+          let fdte = (try int_of_string (get "fdte" "1400") with _ -> 1400) in
+          let cache = (try int_of_string (get "cache" "10485760") with _ -> 10485760) in
+          if not (p_C17_heap_cfg (n_of_int (Hashtbl.length gtbl)) (n_of_int (Hashtbl.length ftbl)) (n_of_int cache)
+                    (n_of_int (max e_i fdte + 128)) (n_of_int (e_i * b_i)) (z_of_string bytes)) then
+            c17_fail := Some (Printf.sprintf "P_C17_heap_cfg@ev%d:heap=%s" !nev bytes)
+        end;
+        if prop = "c17" && !diff = None && not !abstain then begin
+          let e_i = int_of_string (get "e" "16") and b_i = int_of_string (get "b" "4") in
+          let fdte = (try int_of_string (get "fdte" "1400") with _ -> 1400) in
+          let maxpkt = n_of_int (max e_i fdte + 128) and maxblk = n_of_int (e_i * b_i) in
+          if int_of_n (recv_ledger !st) > !max_ledger then max_ledger := int_of_n (recv_ledger !st);
+          if not (p_C17_bounds cfg maxpkt maxblk !st) then c17_fail := Some (Printf.sprintf "P_C17_bounds@ev%d" !nev)
+          else if not (p_C17_heap !st (z_of_string bytes)) then
+            c17_fail := Some (Printf.sprintf "P_C17_heap@ev%d:heap=%s:ledger=%d:items=%d" !nev bytes
+                                (int_of_n (recv_ledger !st)) (int_of_n (recv_items !st)))
+        end
       | ["Q"; nbobj; nberr] ->
         if !diff = None && !last_model_q <> (int_of_string nbobj, int_of_string nberr) then
           diff := Some (Printf.sprintf "ev%d:queries:model=%d,%d" !nev (fst !last_model_q) (snd !last_model_q))
@@ -186,7 +207,9 @@ let handle (i : string list) (o : string list) =
                         a_datalen = n_of_hex datalen } in
               (RvPush (p, now), res)
             | ["U"; res] -> (RvUnparsable, res)
-            | ["K"; _; _; res] -> (RvCleanup (now, []), res)
+            | ["K"; _; eo; ef; res] ->
+              let l s = if s = "-" then [] else List.map n_of_hex (String.split_on_char ',' s) in
+              (RvCleanup (now, l eo, l ef), res)
             | ["Z"; res] -> dropped := true; (RvDrop, res)
             | _ -> failwith ("event " ^ tok)) in
         if ires = "PANIC" then impl_panic := true;
@@ -251,12 +274,13 @@ let handle (i : string list) (o : string list) =
           if not (p_C03_writer ct guarded cs) then pfail := Some (Printf.sprintf "P_C03_writer:%s.%s" toi n)
         | None -> ()
       end) keys;
+    if prop = "c17" then (match !c17_fail with Some w -> pfail := Some w | None -> ());
     if !impl_panic then pfail := Some "receiver-panicked";
     if !abstain then diff := None;
     (match !pfail, !diff with
      | Some why, Some d -> verdict_both why d
      | Some why, None -> verdict_pfail why
      | None, Some d -> verdict_diff d
-     | None, None -> verdict_ok (!nwriters >= 1 && not !abstain))
+     | None, None -> verdict_ok (if prop = "c17" then (!max_ledger > 0 && not !abstain) else (!nwriters >= 1 && not !abstain)))
 
 let () = run_driver handle
